@@ -29,7 +29,8 @@ def call(pts, tol, mode):
     # the caller.  The answer is defined by the track as it stands at the time of the call.
     # the property does not depend on the unit of length: a third of the calls are made on coordinates AND tolerance divided
     # by 4 (exact in binary floating point; a lattice box is then smaller than one unit)
-    sc = 0.25 if (len(pts) + int(sum(3 * p[0] + p[1] for p in pts))) % 3 == 0 else 1.0
+    h_ = (len(pts) + int(sum(3 * p[0] + p[1] for p in pts))) % 6
+    sc = 0.25 if h_ in (0, 3) else (0.1 if h_ == 1 else 1.0)      # 0.1: coordinates in tenths, NOT exact in binary floating point
     e["scale"] = sc
     hist = (len(pts) + int(sum(p[0] + 2 * p[1] for p in pts)) + (1 if mode == "dp" else 0)) % 2 == 0
     md = MODE_SIMPLIFY_DOUGLAS_PEUCKER if mode == "dp" else MODE_SIMPLIFY_VISVALINGAM
